@@ -121,13 +121,15 @@ func constructCase(s *Suite, kind string, small bool, run *issuanceRun, b *gabi.
 
 func suiteC06(s *Suite, rng *Rng, tier string) {
 	useRng(rng)
-	keys := []*KeyPair{makeKey(128, 0, 6, rng, false), makeKey(256, 0, 6, rng, true), makeKey(1024, 0, 6, rng, true)}
-	if tier == "thorough" {
-		keys = append(keys, makeKey(2048, 0, 6, rng, true))
-	}
+	// keys have exactly maxAttr+1 bases, so that attribute lists of maximal length (up to the
+	// number of bases) and random-blind attributes on the last base are part of every run
 	maxAttr := 3
 	if tier == "thorough" {
 		maxAttr = 5
+	}
+	keys := []*KeyPair{makeKey(128, 0, maxAttr+1, rng, false), makeKey(256, 0, maxAttr+1, rng, true), makeKey(1024, 0, maxAttr+1, rng, true)}
+	if tier == "thorough" {
+		keys = append(keys, makeKey(2048, 0, maxAttr+1, rng, true))
 	}
 	smallLeft := 2
 	var prev *issuanceRun
@@ -136,7 +138,7 @@ func suiteC06(s *Suite, rng *Rng, tier string) {
 		order := new(gbig.Int).Mul(kp.Sk.PPrime, kp.Sk.QPrime)
 		for nattr := 1; nattr <= maxAttr; nattr++ {
 			for mask := 0; mask < 1<<nattr; mask++ {
-				if kp.Bits >= 1024 && tier != "thorough" && (mask%3 != 0 || nattr > 2) {
+				if kp.Bits >= 1024 && tier != "thorough" && (mask%3 != 0 || nattr > 2) && !(nattr == maxAttr && mask == 1<<(nattr-1)) {
 					continue
 				}
 				for _, keyshare := range []bool{false, true} {
@@ -194,7 +196,7 @@ func suiteC06(s *Suite, rng *Rng, tier string) {
 						s.Nontrivial[fmt.Sprint(kp.Bits, nattr, mask, keyshare, withWitness)] = true
 						// issuer verifies the commitment proof (without keyshare: the proof stands alone)
 						if !keyshare {
-							if !cloneList(cm.Proofs).Verify([]*gabikeys.PublicKey{pk}, run.ctx, run.nonce1, false, nil) {
+							if _, acc, _ := verifyCase(s, tag+":commit-honest", false, []*gabikeys.PublicKey{pk}, run.ctx, run.nonce1, false, nil, cloneList(cm.Proofs)); !acc {
 								s.Violate("C06:honest-commitment-rejected", "issuer rejects honest commitment proof", L{tag})
 							}
 							// alterations of the first message must be rejected by the issuer's check
